@@ -197,7 +197,7 @@ auto fns() -> std::vector<Fn1>&
         {C16_E(log), pos(F32DEN, F32MAX), pos(F64DEN, F64MAX), {1, 0.5, 1.5, 2, 10}, {1, -1, -F32DEN}, 1, 100, {}},
         {C16_E(log2), pos(F32DEN, F32MAX), pos(F64DEN, F64MAX), {1, 0.5, 2, 4, 1024}, {1, -1, -F32DEN}, 1, 100, {}},
         {C16_E(log10), pos(F32DEN, F32MAX), pos(F64DEN, F64MAX), {1, 0.1, 10, 100, 1000}, {1, -1, -F32DEN}, 1, 100, {}},
-        {C16_E(log1p), cat(sym(F32DEN, 0.99), pos(0.99, F32MAX)), cat(sym(F64DEN, 0.99), pos(0.99, F64MAX)), {0, 1e-4, -1e-4, 1, -0.5}, {-1, -2, -1.5}, 0, 100, {{"C16.log1p.gcem", cls_log1p}}},
+        {C16_E(log1p), cat(cat(sym(F32DEN, 0.99), pos(0.99, F32MAX)), {{-1.0, -0.99, 1}}), cat(cat(sym(F64DEN, 0.99), pos(0.99, F64MAX)), {{-1.0, -0.99, 1}}), {0, 1e-4, -1e-4, 1, -0.5, -1}, {-1, -2, -1.5}, 0, 100, {{"C16.log1p.gcem", cls_log1p}}},
         {C16_E(sin), sym(1e-30, 100), sym(1e-300, 100), {0, PI / 2, PI, 2 * PI, -PI, 100}, {}, -100, 100, {}},
         {C16_E(cos), sym(1e-30, 100), sym(1e-300, 100), {0, PI / 2, PI, 2 * PI, -PI, 100}, {}, -100, 100, {}},
         {C16_E(tan), sym(1e-30, 100), sym(1e-300, 100), {0, PI / 4, PI / 2, PI, -PI / 2}, {}, -100, 100, {}},
